@@ -26,15 +26,15 @@ func init() {
 	registerProp(&Property{
 		ID: "C03", Kind: "necessary structural clauses (band clause sufficient with AFF-5)",
 		Tech:  "symbolic affine execution of the Y assignment, sibling-agreement on positioners, ownership table, reversal-guard dominance, running-extremum lint",
-		Rules: []string{"AFF-5", "EFF-3", "OWN-1", "PAIR-2", "EFF-1", "EFF-2", "ITER-1", "ORD-5", "ACYC-1", "AGG-1", "AFF-8", "ORD-4"},
+		Rules: []string{"AFF-5", "EFF-3", "OWN-1", "PAIR-2", "EFF-1", "EFF-2", "ITER-1", "ORD-5", "ACYC-1", "AGG-1", "AFF-8", "ORD-4", "BAL-1"},
 		Explanation: "AFF-5 (all nodes of a layer get one Y; the next band starts layer.H + LayerSpacing lower) and EFF-3 (every positioner makes layer.H the max node height) give the band clause for every input. OWN-1: Layer only changes in phase 2, so bands are the layering; PAIR-2 + EFF-1 + OWN-1: ArrowHeadStart == IsReversed, toggled only by Reverse; " +
-			"EFF-2 + ITER-1 the un-reverse pass visits every edge of g.Edges and flips exactly the flagged ones (a pass that iterates a list Reverse removes from skips edges: flagged but still downward); ORD-5 acyclic inputs are never reversed; AGG-1/AFF-8 longest-path layers are computed from the final maximum; ORD-4 layers stay >= 0. Not decided: feasibility (span >= 1) of network simplex through tree construction, pivots and balancing.",
+			"EFF-2 + ITER-1 the un-reverse pass visits every edge of g.Edges and flips exactly the flagged ones (a pass that iterates a list Reverse removes from skips edges: flagged but still downward); ORD-5 acyclic inputs are never reversed; AGG-1/AFF-8 longest-path layers are computed from the final maximum; ORD-4 layers stay >= 0; BAL-1 the vertical balancer moves a node only inside the window [max over in-edges of From.Layer + Delta, min over out-edges of To.Layer - Delta], computed from the current layers inside the moving loop (so no edge becomes flat or upward). Not decided: feasibility (span >= 1) of network simplex through tree construction and pivots, and of the horizontal balancer used by the NetworkSimplex positioner.",
 		Assumptions: []string{"floating-point sums are exact for the band clause up to rounding"},
 	})
 	registerProp(&Property{
 		ID: "C04", Kind: "necessary structural clauses (VAlign/PackRight sufficient)",
 		Tech:  "symbolic affine execution (recurrences of VAlign/PackRight, separation dominance of the NS positioner, Y assignment, component shift), ownership table",
-		Rules: []string{"AFF-4", "AFF-7", "FLOW-1", "AFF-5", "EFF-3", "OWN-1", "ORD-4", "PROG-1", "WIDTH-1"},
+		Rules: []string{"AFF-4", "AFF-7", "FLOW-1", "AFF-5", "EFF-3", "OWN-1", "ORD-4", "PROG-1", "WIDTH-1", "OPTS-1"},
 		Explanation: "AFF-4: VAlign and PackRight place neighbours exactly W + NodeSpacing apart, so no overlap and >= spacing for all widths >= 0; AFF-7: the NetworkSimplex positioner's separation constraint dominates W_left + spacing; FLOW-1 (with AFF-6): the next component starts at the rightmost edge + spacing; " +
 			"AFF-5/EFF-3: vertical disjointness of bands; OWN-1: X/Y only from phase 4; ORD-4: X = auxiliary layer >= 0; PROG-1: SinkColoring's overlap removal repeats only under a strict overlap test, moves the node to at least the compared bound, and compares with exactly the position it enforces (left neighbour + block width + spacing), so the fix-point implies the separation; WIDTH-1: a block's width is the maximum of its members' widths, so every node fits the slot reserved for its block. Not decided: that SinkColoring's placeBlock fix-point is reached (an upper bound on the coordinates), finiteness, the integer rounding of the auxiliary graph, that the last node of a layer is the rightmost.",
 		Assumptions: []string{"sizes and spacings are finite and non-negative (property hypothesis)"},
@@ -50,8 +50,8 @@ func init() {
 	registerProp(&Property{
 		ID: "C06", Core: []string{"AFF-2", "AFF-3"}, Kind: "necessary structural clauses",
 		Tech:  "symbolic affine execution of the routers (point-sequence shapes, orthogonality as shared coordinate expressions), SSA value-identity for spline joining",
-		Rules: []string{"AFF-2", "AFF-3", "AFF-9", "OWN-1"},
-		Explanation: "AFF-2: Straight yields exactly 2 points; Polyline yields [start, one point per inner route node at (n.X + W/2, n.Y + layerH/2), end]; Splines append 4-point pieces; AFF-3: within one orthogonal elbow consecutive points share an identical x or y expression and consecutive elbows share x; " +
+		Rules: []string{"AFF-2", "AFF-3", "AFF-9", "OWN-1", "PAIR-3", "FLOW-1"},
+		Explanation: "PAIR-3 + FLOW-1: the caller receives the router's point list itself - a plain copy (slices.Clone or a package helper that receives e.Points) whose only change is the component shift added to x; nothing is filtered, compacted or re-ordered on the way out (spline routes rely on repeated points at the joints). AFF-2: Straight yields exactly 2 points; Polyline yields [start, one point per inner route node at (n.X + W/2, n.Y + layerH/2), end]; Splines append 4-point pieces; AFF-3: within one orthogonal elbow consecutive points share an identical x or y expression and consecutive elbows share x; " +
 			"AFF-9: spline pieces join (shared split point and tangent, p0/p3 from the path ends, pieces emitted reversed while iterating backward); OWN-1: helper nodes keep zero size, so the bend x is the helper node's x in the output. Not decided: 'never upward' and 'no bend inside a node rectangle' (need C03/C04 numerically).",
 		Assumptions: []string{"flat (same-layer) edges are outside the decided shapes"},
 	})
@@ -85,15 +85,15 @@ func init() {
 	registerProp(&Property{
 		ID: "C10", Kind: "necessary structural clauses",
 		Tech:  "SSA dominance lint on cut values, normaliser-order rule, loop-cap recogniser, balancing-window recogniser, ownership table",
-		Rules: []string{"RECOMP-1", "OPT-1", "ORD-4", "CAP-1", "BAL-1", "OWN-1"},
-		Explanation: "RECOMP-1: cut values are a function of the current tree only (no read of a stale value); OPT-1: the pivot loop can stop (budget aside) only when a complete scan of the edge list finds no tree edge with negative cut value - the optimality criterion - and the enter edge is a strict minimum-slack candidate of a complete scan; ORD-4: the top band is 0 after balancing; CAP-1: the pivot loop honours the documented budget; OWN-1: Layer is not touched after phase 2; " +
+		Rules: []string{"RECOMP-1", "OPT-1", "TIGHT-1", "ORD-4", "CAP-1", "BAL-1", "OWN-1", "DISP-1"},
+		Explanation: "RECOMP-1: cut values are a function of the current tree only (no read of a stale value); TIGHT-1: an edge enters the spanning tree only under slack == 0 or after the layers were shifted by its slack (the basis stays feasible); OPT-1: the pivot loop can stop (budget aside) only when a complete scan of the edge list finds no tree edge with negative cut value - the optimality criterion - and the enter edge is a strict minimum-slack candidate of a complete scan; ORD-4: the top band is 0 after balancing; CAP-1: the pivot loop honours the documented budget; OWN-1: Layer is not touched after phase 2; " +
 			"BAL-1: balancing moves only nodes whose move leaves total length unchanged (in-degree = out-degree) and only inside their feasible window. Not decided: optimality and feasibility of the pivot sequence; contiguity of bands.",
 		Assumptions: []string{"clauses are necessary, not sufficient"},
 	})
 	registerProp(&Property{
 		ID: "C11", Kind: "sufficient modulo termination of the traversal",
 		Tech:  "symbolic recurrence extraction (height = max(1, child + Delta), Layer = final max - height) + running-extremum lint + recursion table",
-		Rules: []string{"AFF-8", "AGG-1", "REC-1"},
+		Rules: []string{"AFF-8", "AGG-1", "REC-1", "DISP-1"},
 		Explanation: "AFF-8: the height accumulator starts at the constant 1 and is updated as max(acc, child + Edge.Delta) over out-edges, and Node.Layer is stored as L - height with L the final value of the max-reduction over all heights (read after the traversal loop); AGG-1: no value derived from the still-growing maximum is stored during the traversal. " +
 			"AFF-8 also decides that a traversal is started from every node of the graph (a full, never-left-early loop over the node list or a same-length copy) and that only self-loops are left out of the maximum. Together these are the specification of longest-path layering; what remains is termination of the memoised traversal (REC-1 table entry: acyclicity after phase 1). Not decided: that the drawn bands are these layers (C03's band clause) and the orientation it layers (C14's rules).",
 		Assumptions: []string{"the graph is acyclic after phase 1"},
@@ -117,9 +117,9 @@ func init() {
 	registerProp(&Property{
 		ID: "C14", Kind: "necessary structural clauses",
 		Tech:  "CFG pairing of the DFS stack set, effect-summary iterator lint, inter-procedural dominance of the acyclicity test, Reverse contract",
-		Rules: []string{"PAIR-1", "ITER-1", "ORD-5", "EFF-1"},
+		Rules: []string{"PAIR-1", "ITER-1", "ORD-5", "EFF-1", "DISP-1"},
 		Explanation: "PAIR-1: only edges into the current DFS stack are collected (the stack set is marked before recursing and cleared before every return), and exactly the collected list is reversed; ITER-1: no breaker reverses an edge of the list it is iterating; " +
-			"ORD-5: no reversal before the graph is known to be cyclic, except under an antiparallel witness; EFF-1: Reverse's contract. Not decided: minimality in the presence of the two-node pre-pass on multigraphs.",
+			"DISP-1: when the depth-first breaker is selected it is the depth-first breaker that runs (no size- or shape-gated fallback to another algorithm); ORD-5: no reversal before the graph is known to be cyclic, except under an antiparallel witness; EFF-1: Reverse's contract. Not decided: minimality in the presence of the two-node pre-pass on multigraphs.",
 		Assumptions: []string{"clauses are necessary, not sufficient"},
 	})
 	registerProp(&Property{
@@ -135,8 +135,8 @@ func init() {
 	registerProp(&Property{
 		ID: "C16", Core: []string{"AFF-4"}, Kind: "sufficient modulo rounding",
 		Tech:  "symbolic affine execution: difference equations and reductions of the two positioners",
-		Rules: []string{"AFF-4", "OWN-1"},
-		Explanation: "AFF-4, in the affine domain: VAlign - the forward loop over layer.Nodes stores X := c and updates c' - c = n.W + s; c0 = (M - E)/2 where E is the layer's own accumulated extent (sum of n.W plus s under the 'not last' test) and M is a max-reduction of E over all layers, so the extent is sum W + (k-1)s, every layer's midpoint is M/2 and the widest layer starts at 0. " +
+		Rules: []string{"AFF-4", "OWN-1", "OPTS-1", "DISP-1"},
+		Explanation: "OPTS-1: the spacing and size options reach the parameter record unchanged and unconditionally (NodeSpacing = 0 included). AFF-4, in the affine domain: VAlign - the forward loop over layer.Nodes stores X := c and updates c' - c = n.W + s; c0 = (M - E)/2 where E is the layer's own accumulated extent (sum of n.W plus s under the 'not last' test) and M is a max-reduction of E over all layers, so the extent is sum W + (k-1)s, every layer's midpoint is M/2 and the widest layer starts at 0. " +
 			"PackRight - reverse iteration, c' - c = -(n.W + s), X := c', c0 = 0, so every layer's right end is -s; then X -= L with L the min-reduction of the final c, so the leftmost X is 0. OWN-1 guarantees nothing else writes X. Not decided: floating-point rounding, which the identities ignore.",
 		Assumptions: []string{"rounding of float sums is ignored"},
 	})
